@@ -18,8 +18,10 @@
 package processor
 
 import (
+	"encoding/binary"
 	"io"
 
+	"github.com/cespare/xxhash"
 	"github.com/siglens/siglens/pkg/segment/query/iqr"
 	"github.com/siglens/siglens/pkg/segment/structs"
 	sutils "github.com/siglens/siglens/pkg/segment/utils"
@@ -70,13 +72,14 @@ func (p *dedupProcessor) Process(iqr *iqr.IQR) (*iqr.IQR, error) {
 
 	numRecords := len(fieldToValues[p.options.FieldList[0]])
 	rowsToDiscard := make([]int, 0)
+	fieldHashes := make([]byte, 0, 8*len(p.options.FieldList))
 
 RecordLoop:
 	for i := 0; i < numRecords; i++ {
-		hash := uint64(0)
+		// The key of a combination is a digest of the sequence of the field
+		// hashes, so it depends on which field has which value.
+		fieldHashes = fieldHashes[:0]
 		for _, field := range p.options.FieldList {
-			hash ^= fieldToValues[field][i].Hash()
-
 			if fieldToValues[field][i].Dtype == sutils.SS_DT_BACKFILL ||
 				fieldToValues[field][i].Dtype == sutils.SS_INVALID {
 				if !p.options.DedupOptions.KeepEmpty {
@@ -85,7 +88,10 @@ RecordLoop:
 
 				continue RecordLoop
 			}
+
+			fieldHashes = binary.LittleEndian.AppendUint64(fieldHashes, fieldToValues[field][i].Hash())
 		}
+		hash := xxhash.Sum64(fieldHashes)
 
 		if value, ok := p.combinationHashes[hash]; ok {
 			if value >= int(p.options.Limit) {
